@@ -16,6 +16,7 @@ from .. import zoo, impl
 from ..refmodel import fit
 
 FN = 'mc.checks.c04_transfer:case'
+FN_MODEL = 'mc.checks.c04_transfer:case_model'
 
 # pattern -> directions that are coarsened
 COARSENED = {0: (0, 1, 2), 1: (1, 2), 2: (0, 2), 3: (0, 1),
@@ -197,6 +198,89 @@ def case(c):
             'outcome': (pattern, int(ci.sum()) > 10)}
 
 
+def case_model(c):
+    """Coarse grid and coarse material parameters over several levels: the
+    real restriction() is applied repeatedly with a sequence of patterns; on
+    every level each of eta_x, eta_y, eta_z, zeta must be the sum of its
+    fine-cell children, computed by the checker from the FINEST level
+    (independent VolumeModel reading: direction-dependent conductivity per
+    anisotropy case), and the coarse nodes every second node."""
+    import emg3d
+    from emg3d import solver
+    grid = zoo.mesh({'shape': c['shape'], 'w': c['w']})
+    model = zoo.model(grid, c['model'])
+    freq = c['freq']
+    vm, sfield = impl.vmodel_and_sfield(model, freq)
+    viol, compared = [], 0
+    # reference fine-level parameters from the model itself
+    from scipy.constants import epsilon_0, mu_0
+    sval = zoo.sval_of(freq)
+    vol = grid.cell_volumes.reshape(grid.shape_cells, order='F')
+    case_ = c['model']['case']
+    cond = {'x': model.property_x,
+            'y': model.property_y if case_ in ('HTI', 'triaxial')
+            else model.property_x,
+            'z': model.property_z if case_ in ('VTI', 'triaxial')
+            else model.property_x}
+    eps = model.epsilon_r
+    mu = model.mu_r
+    ref0 = {}
+    for d in 'xyz':
+        sig = cond[d] + (sval*epsilon_0*eps if eps is not None else 0)
+        ref0['eta_'+d] = -sval*mu_0*vol*sig
+    ref0['zeta'] = vol/mu if mu is not None else vol
+    for name, r0 in ref0.items():
+        compared += 1
+        got = getattr(vm, name)
+        if not np.allclose(got, r0, rtol=1e-13, atol=0):
+            viol.append({'cls': 'fine-volume-model-differs-from-definition',
+                         'what': f'{name} on the fine level ({c["model"]})'})
+    cur = {k: np.array(v) for k, v in ref0.items()}
+    nodes = [grid.nodes_x, grid.nodes_y, grid.nodes_z]
+    res = emg3d.Field(grid, dtype=sfield.field.dtype, frequency=freq)
+    cm, cs = vm, sfield
+    for lev, pattern in enumerate(c['patterns']):
+        shape = tuple(cm.grid.shape_cells) if hasattr(cm, 'grid') else \
+            tuple(cur['zeta'].shape)
+        if any(shape[d] % 2 or shape[d] < 4 for d in COARSENED[pattern]):
+            break
+        cm, cs, res = solver.restriction(cm, cs, res, pattern)
+        st = [2 if d in COARSENED[pattern] else 1 for d in range(3)]
+        for d in range(3):
+            if st[d] == 2:
+                nodes[d] = nodes[d][::2]
+        cn = [cm.grid.nodes_x, cm.grid.nodes_y, cm.grid.nodes_z]
+        for d in range(3):
+            compared += 1
+            if len(cn[d]) != len(nodes[d]) or not np.allclose(
+                    cn[d], nodes[d], rtol=1e-13, atol=0):
+                viol.append({'cls': 'coarse-grid-nodes',
+                             'what': f'level {lev+1}, direction {d}'})
+        for name in list(cur):
+            fine = cur[name]
+            ref = np.zeros(tuple(fine.shape[d]//st[d] for d in range(3)),
+                           dtype=fine.dtype)
+            for a, b, cc in itertools.product(range(st[0]), range(st[1]),
+                                              range(st[2])):
+                ref += fine[a::st[0], b::st[1], cc::st[2]]
+            cur[name] = ref
+            got = getattr(cm, name)
+            compared += 1
+            if got.shape != ref.shape or not np.allclose(
+                    got, ref, rtol=1e-12, atol=0):
+                viol.append({
+                    'cls': 'coarse-parameter-not-sum-of-children',
+                    'what': f'{name}, level {lev+1} (patterns '
+                            f'{c["patterns"][:lev+1]}), model {c["model"]}',
+                    'observed': got, 'expected': ref})
+        if viol:
+            break
+    return {'viol': viol, 'compared': compared,
+            'transitions': len(c['patterns']), 'nontrivial': compared > 4,
+            'outcome': (c['model'].get('case'), tuple(c['patterns']),
+                        tuple(cur['zeta'].shape))}
+
+
 def shapes_for(pattern, quick):
     cz = (4, 6) if quick else (4, 6, 8)
     nz = (2, 3, 4, 5)
@@ -226,6 +310,31 @@ def run(ctx):
                              (3.0, {'case': 'VTI', 'prof': 'rnd'})):
                     cs.append({'pattern': pattern, 'shape': sh, 'w': w,
                                'freq': f, 'model': m})
+    cm = []
+    seqs = [(p,) for p in range(7)] + [(0, 0), (4, 5, 6), (1, 2, 3),
+                                       (6, 0), (3, 6, 0)]
+    for sh in ((8, 4, 12), (4, 8, 8), (12, 8, 4)) + (() if q else (
+            (8, 8, 8), (6, 4, 10), (16, 4, 8))):
+        for case_ in ('isotropic', 'VTI', 'HTI', 'triaxial'):
+            for mu, ep in ((False, False), (True, False), (False, True),
+                           (True, True)):
+                for f in (3.0, -5.0):
+                    if q and (mu != ep) and f < 0:
+                        continue
+                    for seq in seqs:
+                        cm.append({'shape': sh, 'w': 'rnd', 'freq': f,
+                                   'patterns': list(seq),
+                                   'model': {'case': case_, 'prof': 'rnd',
+                                             'mu_r': mu, 'eps_r': ep}})
+    if ctx.wants('coarse-model'):
+        ctx.explore('coarse-model', FN_MODEL, cm, engine='E1',
+                    rule='shapes x 4 anisotropy cases x mu_r x epsilon_r x '
+                         'frequency/Laplace x 12 pattern sequences (up to 3 '
+                         'levels): every coarse eta_x/y/z, zeta = sum of the '
+                         'children of the checker-side fine-level definition',
+                    time_cap=ctx.budget or (600 if q else 3000))
+    if not ctx.wants('transfer'):
+        return
     ctx.explore('transfer', FN, cs, engine='E1',
                 rule='7 patterns x all admissible small shapes x width '
                      'profiles x (real triaxial+mu_r | complex VTI); full '
